@@ -52,6 +52,10 @@ type Server struct {
 	ByNS bool
 	// Intr (opt-in, default nil): another actor that creates one object in the middle of an operation
 	Intr *Intruder
+	// CRDs (opt-in, default off; set before the first request): the server also stores
+	// CustomResourceDefinition objects (cluster-scoped, /apis/apiextensions.k8s.io/v1/customresourcedefinitions)
+	// instead of answering 404 for that kind (C09: charts with a crds/ directory)
+	CRDs bool
 }
 
 // Intruder: a foreign object appears at Key at a deterministic point of the request stream -
@@ -156,6 +160,9 @@ func (s *Server) RoundTrip(req *http.Request) (*http.Response, error) {
 		}
 	}
 	kind, known := plural2kind[plural]
+	if !known && s.CRDs && plural == "customresourcedefinitions" {
+		kind, known = "CustomResourceDefinition", true
+	}
 	var body []byte
 	if req.Body != nil {
 		body, _ = io.ReadAll(req.Body)
